@@ -73,6 +73,7 @@ def make_rig(cfg, transport='udp', fill=None, T=1, R=0, ka=False, ctx=None):
                 dev.runtime[i] = fill(i) & 0xFF
         return Rig('ES', dev, transport, T, R, ka, ctx)
     dev = ModbusDevice(unit=0xF7 if fam == 'ET' else 0x7F, **({'fill': fill} if fill else {}))
+    dev.mbap_length = cfg.get('mbap_length', 'correct')
     if fam == 'ET':
         et_device_info(dev, serial=serial_for(cfg['tag']), rated=cfg['power'])
         dev.rf.set(35184, cfg['battery_mode'])
